@@ -33,12 +33,14 @@ TRACE = ('C09.bounded.every_dependency_is_decided_by_its_own_checker', 'C02.boun
          'C08.bounded.validated_dependencies_are_those_of_the_latest_execution', 'C09.bounded.check_uses_checker_and_stamp_of_the_dependency')
 PIE_ALSO = {
     'C02': TRACE,
-    'C08': TRACE + ('C02.bounded.executes_only_what_a_from_scratch_build_executes', 'C02.bounded.requiring_again_executes_nothing'),
+    'C08': TRACE + ('C02.bounded.executes_only_what_a_from_scratch_build_executes', 'C02.bounded.requiring_again_executes_nothing', 'C09.bounded.write_validates_every_reader'),
     'C09': TRACE + ('C02.bounded.executed_only_if_a_dependency_is_inconsistent',),
     # the stamp slot of an end event disagrees with what the task saw: the dependency's stamp is wrong (C09) or the event misreports it (C17)
     'C17': ('C09.bounded.stamp_is_what_the_task_saw',),
     'C04': ('C09.bounded.inconsistent_dependency_schedules_its_task', 'C18.bounded.failed_check_schedules_the_task'),
     'C16': (),
+    # the same resource looked up under another identity gets another node: its readers are then not found when it is written
+    'C15': ('C09.bounded.write_validates_every_reader', 'C09.bounded.reported_change_validates_every_reader_and_writer'),
 }
 FS_BOUNDS = {'quick': ['fs'], 'thorough': ['fs']}
 MAP_BOUNDS = {'quick': ['map', '--cases', '20000', '--len', '14'], 'thorough': ['map', '--cases', '400000', '--len', '24']}
